@@ -57,8 +57,29 @@ def _eval_one(d):
         r.setdefault("nontrivial", True)
         r.setdefault("outdom", False)
         return r
-    except Exception:
+    except Exception as ex:
+        lib = _raised_inside_library(ex)
+        if lib:
+            # an exception that originated inside the library and travelled through a harness call that was not wrapped:
+            # the library failed on an input of the alphabet, which is a verdict on the library, not a defect of the harness
+            return {"key": dkey(d), "viol": [{"what": "the library raised where the harness expected a result", "detail": {"exc": "%s: %s" % (type(ex).__name__, str(ex)[:300]), "at": lib}}],
+                    "known": [], "tags": ["uncaught_library_exception"], "obs": None, "cls": "uncaught-library-exception", "nontrivial": True, "outdom": False}
         return {"harness_error": traceback.format_exc(), "d": d}
+
+
+def _raised_inside_library(ex):
+    """'file:line function' of the innermost library frame if the traceback ends inside the forsys package (possibly in numpy /
+    scipy called from it) without passing through harness code again; None otherwise"""
+    root = os.path.join(os.environ.get("FORSYS_REPO", "/repo"), "forsys") + os.sep
+    here = os.path.dirname(os.path.dirname(os.path.abspath(__file__))) + os.sep
+    frames = traceback.extract_tb(ex.__traceback__)
+    last_lib = None
+    for fr in frames:
+        if fr.filename.startswith(root):
+            last_lib = "%s:%d %s" % (fr.filename[len(root):], fr.lineno, fr.name)
+        elif fr.filename.startswith(here):
+            last_lib = None
+    return last_lib
 
 
 def _eval_edge(args):
@@ -128,7 +149,16 @@ def explore(system, stats=None, deadline=None, max_states=None, parallel_edges=F
             if "harness_error" in r1:
                 raise HarnessError(r1["harness_error"])
             if dkey(_strip(r1)) != dkey(_strip(r2)):
-                raise HarnessError("non-deterministic evaluation of %s:\n%s\n%s" % (dkey(d)[:300], dkey(_strip(r1))[:2000], dkey(_strip(r2))[:2000]))
+                bad = r1 if r1.get("viol") else (r2 if r2.get("viol") else None)
+                if bad is None:
+                    raise HarnessError("non-deterministic evaluation of %s:\n%s\n%s" % (dkey(d)[:300], dkey(_strip(r1))[:2000], dkey(_strip(r2))[:2000]))
+                # the same state, evaluated twice on freshly built library objects, once violates the property and once does not:
+                # the implementation carries state from one object to the next inside a process (class attributes, mutable
+                # defaults, module globals). The violating execution happened on the real code, so it is reported; it
+                # depends on what ran earlier in the worker and need not reproduce from a single replayed state.
+                for v in bad["viol"]:
+                    v["what"] = "[differs between two evaluations of the same state on fresh objects in one process: state shared between objects] " + v["what"]
+                results[level.index(d)] = bad
         seen_keys = {}
         frontier = []
         for d, r in zip(level, results):
